@@ -581,7 +581,7 @@ func checkCompareSeq(p *Prog, r *Rule, cmp *ssa.Function) {
 					case "A.R|B.R":
 						return []Val{rr}, true
 					}
-					return []Val{Unknown{"comparator called with unexpected operands " + a + "," + b}}, true
+					return []Val{Unknown{Why: "comparator called with unexpected operands " + a + "," + b}}, true
 				}
 				s0 := m.NewState(fn, []Val{mk(ep[0], "A"), mk(ep[1], "B")}, 0)
 				out := m.Run(s0)
